@@ -41,3 +41,15 @@ Print Assumptions Reach_all.
 Print Assumptions Reach_blueprints_everywhere.
 Print Assumptions Reach_sequence_keys.
 Print Assumptions Reach_sequencing_at_positions.
+
+(* ---- reachability discharges the structural hypothesis of the mirror theorems (Props/C15b.v) ---- *)
+From BB Require Import Model.Output Proofs.MirrorFacts Proofs.ReachMirrorFacts.
+
+(* for every sequence an API program can build, with non-negative delays: whatever the output path prepares is exactly
+   what forge reports (channels, arrays, markers, flags, final plans incl. filter compensation), at every position *)
+Theorem Reach_prepare_mirrors_forge : forall prog r s chans out,
+  Forall api_op prog -> In (r, s) (sqs (final_store store0 prog)) ->
+  delays_nonneg s -> prepare s = Ok (chans, out) ->
+  exists sq, mapM (get_sq s) (range1 (length out)) = Ok sq /\ seq_forge s true true false = Ok (mirror_forge sq out).
+Proof. exact reachable_prepare_mirrors_forge. Qed.
+Print Assumptions Reach_prepare_mirrors_forge.
